@@ -137,6 +137,8 @@ def find_constant_failure(stmts):
             b = try_ev(e[3], env)
             bi = isinstance(b, int) and not isinstance(b, bool)
             ai = isinstance(a, int) and not isinstance(a, bool)
+            if op == "add" and isinstance(a, list) and isinstance(b, list):
+                return a + b                         # concatenation of constant arrays is folded too
             if bi and op in ("div", "mod") and b == 0:
                 found.add("ZeroDivision" if op == "div" else "ZeroModulo")
                 raise ConstErr("div0")
@@ -207,9 +209,10 @@ def find_constant_failure(stmts):
                     env.pop(s[1], None)
             elif isinstance(s, tuple) and s and s[0] in ("destruct", "fndecl"):
                 if s[0] == "destruct":
+                    # the right-hand side still sees the old bindings of the names it re-declares
+                    scan(s[2], env)
                     for n in s[1]:
                         env.pop(n, None)
-                    scan(s[2], env)
                 else:
                     env.pop(s[1], None)
                     scan(s, env)
